@@ -231,7 +231,7 @@ def match_finding(findings, pid, key):
     return None
 
 
-def run_plain(pid, items, repo, timeout=600):
+def run_plain(pid, items, repo, timeout=1800):
     """run harness items concretely on the plain library in a separate interpreter"""
     if not items:
         return []
@@ -426,6 +426,13 @@ def decide(pid, tier, jobs, repo, seed, only=None, verbose=False):
                 if label in o['failures']:
                     hit = (v, o)
                     break
+            if hit is None:
+                # the same input fails on the plain library, but at another obligation (e.g. it raises or does not terminate
+                # before reaching the one the solver refuted): still a confirmed counterexample of the property
+                for v, o in zip(cands, outs):
+                    if o['failures']:
+                        hit = (v, o)
+                        break
             if hit is None:
                 unreproduced.append({'key': key, 'cfg': cands[0]['cfg'], 'inputs': cands[0]['inputs'], 'plain': outs[0]})
                 continue
